@@ -377,17 +377,27 @@ func (gopt *GetOpt) Parse(args []string) ([]string, error) {
 		}
 	}
 
-	for _, option := range node.UnknownOptions {
-		// Check for unknown mode at the node that we want to validate
-		switch gopt.finalNode.unknownMode {
-		case Fail:
-			return nil, fmt.Errorf(text.MessageOnUnknown, option.Name)
-		case Warn:
-			fmt.Fprintf(Writer, text.WarningOnUnknown+"\n", option.Name)
+	// Unknown options and text given before a command was selected stay at the
+	// level they were given at, walk from the root down to the final node.
+	path := []*programTree{}
+	for n := node; n != nil; n = n.Parent {
+		path = append([]*programTree{n}, path...)
+	}
+	var remaining []string
+	for _, n := range path {
+		for _, option := range n.UnknownOptions {
+			// Check for unknown mode at the node the option was given at
+			switch n.unknownMode {
+			case Fail:
+				return nil, fmt.Errorf(text.MessageOnUnknown, option.Name)
+			case Warn:
+				fmt.Fprintf(Writer, text.WarningOnUnknown+"\n", option.Name)
+			}
 		}
+		remaining = append(remaining, n.ChildText...)
 	}
 
-	return node.ChildText, nil
+	return remaining, nil
 }
 
 // Dispatch - Handles calling commands and subcommands after the call to Parse.
